@@ -163,7 +163,7 @@ func (p *Program) Pos(pos token.Pos) string {
 }
 
 // Func returns the package-level function of package commonmark (or format if pkg==fmt).
-func (p *Program) Func(name string) *ssa.Function   { return p.CMs.Func(name) }
+func (p *Program) Func(name string) *ssa.Function    { return p.CMs.Func(name) }
 func (p *Program) FmtFunc(name string) *ssa.Function { return p.FMTs.Func(name) }
 
 // Method returns method `name` of named type `typ` (pointer or value receiver) in the given ssa package.
@@ -403,7 +403,7 @@ func finish(c *Ctx, verifDir string, kf *KnownFile, start time.Time, seed int, e
 		}
 	}
 	cov := map[string]interface{}{
-		"explanation": fmt.Sprintf("Static analysis of the type-checked syntax and go/ssa form of /repo's working tree (%d module functions, packages %s and %s). Each obligation is one rule instance on one construct; status ok means the structural fact was established on every path/site the rule quantifies over. Only the structural clauses named in rule_texts are decided, not the behavioural property as a whole (see DESIGN.md section for %s).", len(c.P.Funcs), cmPath, fmtPath, c.Prop),
+		"explanation":         fmt.Sprintf("Static analysis of the type-checked syntax and go/ssa form of /repo's working tree (%d module functions, packages %s and %s). Each obligation is one rule instance on one construct; status ok means the structural fact was established on every path/site the rule quantifies over. Only the structural clauses named in rule_texts are decided, not the behavioural property as a whole (see DESIGN.md section for %s).", len(c.P.Funcs), cmPath, fmtPath, c.Prop),
 		"obligations":         len(c.Obs),
 		"discharged":          discharged,
 		"known_findings":      len(c.Obs) - discharged - viol,
